@@ -234,7 +234,17 @@ func runC18(p *core.Prog, r *core.Report, tier string) {
 					return -1
 				}
 				isRangeVal := func(d *core.VD) bool {
-					return d.Kind == "extract" && d.Name == "2" && len(d.Args) == 1 && d.Args[0].Kind == "next"
+					if d.Kind == "extract" && d.Name == "2" && len(d.Args) == 1 && d.Args[0].Kind == "next" {
+						return true
+					}
+					// the entry read back by the range key: m[key] of the same map
+					if lk, ok := d.Val.(*ssa.Lookup); ok && !lk.CommaOk {
+						if id, ok := core.FieldOfValue(lk.X); ok && id == mapField {
+							kd := ds.D(lk.Index)
+							return kd.Kind == "extract" && kd.Name == "1" && len(kd.Args) == 1 && kd.Args[0].Kind == "next"
+						}
+					}
+					return false
 				}
 				var x, y *core.VD
 				flip := false
